@@ -22,7 +22,7 @@ import (
 
 func init() { runners["C10"] = runC10 }
 
-// ids the cases draw from: classes alice(6) bob(2) carol public notes(2) dan
+// ids the cases draw from: classes alice(6) bob(2) carol public notes(2) dan carol-without-port
 var c10Pool = []string{
 	"https://example.com/actors/alice", "http://example.com/actors/alice", "https://EXAMPLE.com/actors/alice",
 	"https://example.com/actors/alice/", "https://example.com/actors/alice#main", "https://example.com/actors/Alice",
@@ -31,6 +31,7 @@ var c10Pool = []string{
 	"https://www.w3.org/ns/activitystreams#Public",
 	"https://example.com/notes/1?x=1&y=2", "https://example.com/notes/1?y=2&x=1",
 	"https://example.net/users/dan",
+	"https://social.example/u/carol", // carol's host without the port: another addressee
 }
 
 var c10Kinds = []string{"Object", "Actor", "Activity", "IntransitiveActivity", "Question", "Collection", "CollectionPage",
